@@ -54,6 +54,8 @@ def run_rules_on(repo, prop):
     import props
 
     facts_path, h, info = extract.ensure_facts(repo)
+    from tc.util import reset_caches
+    reset_caches()
     F = Facts(facts_path)
     R2 = Report(prop, "quick", 0)
     spec = props.PROPS[prop]
